@@ -39,6 +39,8 @@ class Stepper:
         self.dom = [list(b) for b in self.box]
         if cfg.get("alias_dom") and all(b == self.box[0] for b in self.box):
             self.dom = [self.dom[0]] * D          # the idiomatic [[lo, hi]] * d: one inner list object, d times
+        if cfg.get("domtype") == "ndarray":
+            self.dom = np.array(self.box, dtype=float)   # a (d, 2) array is accepted wherever a list of [lo, hi] pairs is
         self.before = copy.deepcopy(self.dom)
         part = A.partition_class(cfg["kind"], cfg["K"])
         self.P = {"kind": cfg["kind"], "K": cfg["K"], "D": D, "metric": "rank", "arity": A.arity(cfg["kind"], cfg["K"], D), "algo": cfg["algo"]}
@@ -118,7 +120,7 @@ def _run(cfg):
 
 
 def _cfg_summary(cfg):
-    return {k: cfg[k] for k in ("algo", "kind", "K", "D", "n", "pattern", "seed") if k in cfg} | {"T": cfg.get("T", cfg["n"]), "prm": {k: v for k, v in cfg.get("prm", {}).items() if isinstance(v, (int, float, str))}, "box": cfg["box"]}
+    return {k: cfg[k] for k in ("algo", "kind", "K", "D", "n", "pattern", "seed", "domtype") if k in cfg} | {"T": cfg.get("T", cfg["n"]), "prm": {k: v for k, v in cfg.get("prm", {}).items() if isinstance(v, (int, float, str))}, "box": cfg["box"]}
 
 
 def pmap(fn, items, procs=None):
